@@ -169,6 +169,9 @@ class Recorder:
 
     async def on_transfer_state_changed(self, transfer, old, new):
         self.world.changes.append((_cur_task(), old.name, new.name))
+        # what the listener can read on the transfer at this moment
+        self.world.change_snap.append({k: transfer.__dict__.get(k, _MISSING)
+                                       for k in ('fail_reason', 'abort_reason', 'remotely_queued')})
         await self.world.hop('listener')
 
 
@@ -228,6 +231,7 @@ class World:
         self.direction = direction
         self.parked = []
         self.changes = []           # (task, old, new) as seen by the listener
+        self.change_snap = []       # aligned with changes: reasons / remotely_queued as readable at the notification
         self.cancel_events = []     # (task that asked, name of the cancelled transfer task)
         self.clock_reads = []
         self.recs = []
@@ -331,7 +335,7 @@ class World:
         return self.transfer.__dict__['_obs_log']
 
     # ---- requests -------------------------------------------------------------------------
-    def issue(self, op, reason=None, remotely=False, by_task=False):
+    def issue(self, op, reason=None, remotely=False, style='kw', by_task=False):
         """a caller executes `await transfer.state.<op>(...)` (or the TransferManager call), exactly
         as manager.py does: the attribute `transfer.state` is read when the call is made.  With
         `by_task` the caller is the transfer's own task (`_transfer_task`), which carries on waiting
@@ -339,10 +343,21 @@ class World:
         for the lock)."""
         t, mgr = self.transfer, self.manager
         rec = {'i': len(self.recs), 'op': op, 'captured': None, 'result': _MISSING, 'exc': None, 'run_state': None,
-               'overlaps': False, 'by_task': by_task, 'cancelled_while_pending': False}
+               'overlaps': False, 'by_task': by_task, 'cancelled_while_pending': False, 'style': style}
+        # what the documentation promises about an accepted request (USAGE.rst "Possible States": a FAILED transfer
+        # carries fail_reason, an ABORTED one abort_reason "which specifies why"; "Requested" = aborted upon request)
+        # (fail() without a reason: fail_reason None is what marks a FAILED download as retryable; abort() without a
+        # reason is never issued by manager.py - no expectation)
+        if op == 'fail' or (op == 'abort' and style != 'none'):
+            rec['expect_reason'] = None if style == 'none' else reason
+        elif op == 'm_abort':
+            rec['expect_reason'] = 'Requested'
+        elif op == 'queue' and style != 'none':
+            rec['expect_remotely'] = remotely
 
         async def caller():
             rec['captured'] = t.state.VALUE.name
+            rec['captured_obj'] = t.state
             rec['overlaps'] = any(r is not rec and r['captured'] is not None and 'answered' not in r for r in self.recs)
             rec['found'] = {'t': self.loop.time(), 'lock_held': self.lock.locked(), 'lock_queue': self.lock.n_waiters(),
                             'suspended_hops': list(self.parked)}
@@ -356,8 +371,16 @@ class World:
                 elif op == 'm_abort':
                     await mgr.abort(t)
                     rec['result'] = True
+                # argument passing as in manager.py: `queue()` / `queue(remotely=True)`; `fail()` /
+                # `fail(reason=x)` / `fail(x)`; `abort(reason=x)`
+                elif op == 'queue' and style == 'none':
+                    rec['result'] = await t.state.queue()
                 elif op == 'queue':
                     rec['result'] = await t.state.queue(remotely=remotely)
+                elif op in ('fail', 'abort') and style == 'none':
+                    rec['result'] = await getattr(t.state, op)()
+                elif op in ('fail', 'abort') and style == 'pos':
+                    rec['result'] = await getattr(t.state, op)(reason)
                 elif op in ('fail', 'abort'):
                     rec['result'] = await getattr(t.state, op)(reason=reason)
                 else:
@@ -389,21 +412,31 @@ class World:
         self.recs.append(rec)
         return rec
 
-    def fresh_args(self, i, op):
+    def fresh_args(self, i, op, rich=2):
+        """(reason, remotely, style).  style: how the caller passes the argument - 'none' (left out), 'kw'
+        (keyword), 'pos' (positional; manager.py does that for fail only).  rich=2: every style manager.py uses
+        (fail: none/kw/pos, abort: none/kw, queue: none/kw); rich=1: fail/abort none/kw, queue kw; rich=0: always by
+        keyword (three-request scenarios: the styles are not multiplied into the schedules)."""
         c = self.c
-        reason, remotely = None, False
-        if op in ('fail', 'abort'):
-            if c.choose(2, f'reason_given{i}') == 1:
-                reason = tok(c, f'reason_arg{i}', 'R')
-        elif op == 'queue':
+        reason, remotely, style = None, False, 'kw'
+        if op == 'fail' and rich:
+            style = c.pick(['none', 'kw', 'pos'] if rich == 2 else ['none', 'kw'], f'arg_style{i}')
+        elif op == 'abort' and rich:
+            style = c.pick(['none', 'kw'], f'arg_style{i}')
+        elif op == 'queue' and rich == 2:
+            style = c.pick(['none', 'kw'], f'arg_style{i}')
+        if op in ('fail', 'abort') and style != 'none':
+            reason = tok(c, f'reason_arg{i}', 'R')
+        elif op == 'queue' and style != 'none':
             remotely = c.fresh_bool(f'remotely_arg{i}')
-        return reason, remotely
+        return reason, remotely, style
 
     def on_lock_acquired(self, task):
         # the state the request finds when it (last) gets the lock is the state it runs in
         for rec in self.recs:
             if rec.get('task') is task and 'answered' not in rec:
                 rec['run_state'] = self.transfer.state.VALUE.name
+                rec['outdated'] = self.transfer.state is not rec.get('captured_obj')
 
     def rec_of(self, task):
         for rec in self.recs:
@@ -469,6 +502,32 @@ def outcome(rec):
 # obligations
 # ------------------------------------------------------------------------------------------
 
+def judge_accepted_effects(c, w, rec, idxs, sig):
+    """clause (d): what the documentation promises about an accepted abort / fail (/ queue): listeners that are
+    told ABORTED (FAILED) can read the reason the request carried - for all reasons r (symbolic), however the
+    caller passed it, and also when the request had to wait for the lock and was performed on a newer state.
+    `idxs`: indices into w.changes of the changes made by this request."""
+    opn = op_name(rec['op'])
+    info = {'request': rec['op'], 'argument_style': rec['style']}
+    if 'expect_reason' in rec:
+        tgt, field = ('ABORTED', 'abort_reason') if opn == 'abort' else ('FAILED', 'fail_reason')
+        label = f'accepted_{opn}_stores_reason'
+        hits = [i for i in idxs if w.changes[i][2] == tgt]
+        c.check(bool(hits), label, sig=sig, info=dict(info, problem=f'accepted but listeners were not told {tgt}'))
+        if hits:
+            c.reach('accepted_reason_checked')
+            if rec.get('outdated'):
+                c.reach('stale_accepted_reason_checked')
+            c.check(same(w.change_snap[hits[-1]][field], rec['expect_reason']), label, sig=sig,
+                    info=dict(info, problem=f'{field} readable at the {tgt} notification is not the reason of the request'))
+    if 'expect_remotely' in rec:
+        hits = [i for i in idxs if w.changes[i][2] == 'QUEUED']
+        c.check(bool(hits), 'accepted_queue_sets_remotely', sig=sig, info=dict(info, problem='accepted but listeners were not told QUEUED'))
+        if hits:
+            c.check(same(w.change_snap[hits[-1]]['remotely_queued'], rec['expect_remotely']), 'accepted_queue_sets_remotely',
+                    sig=sig, info=dict(info, problem='remotely_queued at the QUEUED notification is not the `remotely` argument'))
+
+
 def judge_sequential(c, w, rec, pre, state, sig):
     """one request that ran alone, from `state` (clauses (a) and (b))"""
     direction = w.direction
@@ -490,6 +549,7 @@ def judge_sequential(c, w, rec, pre, state, sig):
     c.check(now == prev or (prev, now) in E, 'final_state_reached_by_edge', sig=sig, info={'last_seen': prev, 'now': now})
     if out == 'accepted':
         c.reach('accepted')
+        judge_accepted_effects(c, w, rec, list(range(pre['#n_changes'], len(w.changes))), sig)
     # (b) refusal has no side effect
     if out == 'refused':
         c.reach('refused')
@@ -535,10 +595,10 @@ def h_step(c, state, direction, full=False, ops=None):
         w.set_symbolic_fields(present)
         w.set_state(state)
         w.attach_tasks(tasks)
-        reason, remotely = w.fresh_args(0, op)
+        reason, remotely, style = w.fresh_args(0, op)
         w.start_observing()
         pre = snapshot_with_counts(w)
-        rec = w.issue(op, reason, remotely)
+        rec = w.issue(op, reason, remotely, style)
         w.settle()
         judge_sequential(c, w, rec, pre, state, [state, op, direction])
         c.reach('step_end')
@@ -565,9 +625,9 @@ def h_sequence(c, direction, first, k=3, slow=True):
                 object.__setattr__(t, 'local_path', w.local_file)
                 w.fs.files.add(w.local_file)
             w.attach_tasks('transfer+queue')
-            reason, remotely = w.fresh_args(i, op)
+            reason, remotely, style = w.fresh_args(i, op, rich=1)
             pre = snapshot_with_counts(w)
-            rec = w.issue(op, reason, remotely)
+            rec = w.issue(op, reason, remotely, style)
             w.settle(horizon=w.loop.time() + 60.0)
             judge_sequential(c, w, rec, pre, state, [state, op, direction])
             state = t.state.VALUE.name
@@ -589,7 +649,7 @@ def h_overlap(c, state, direction, op_a, n=2, slow=True, ops=None, by_task=None,
         w.set_symbolic_fields(present)
         w.set_state(state)
         w.attach_tasks('transfer+queue' if by_task is None else 'queue')
-        args = [w.fresh_args(i, op) for i, op in enumerate(ops_list)]
+        args = [w.fresh_args(i, op, rich=(0 if n > 2 else 1 if i == 0 else 2)) for i, op in enumerate(ops_list)]
         w.start_observing()
         loop = w.loop
         issued = 0
@@ -635,7 +695,7 @@ def judge_overlap(c, w, state, ops_list):
         if rec is None:
             return base + ['unattributed']
         rs = rec['run_state']
-        kind = 'no_lock' if rs is None else ('stale' if rs != rec['captured'] else 'fresh')
+        kind = 'no_lock' if rs is None else ('stale' if rec.get('outdated') else 'fresh')   # stale: another state object by now
         return [kind, rec['captured'], rs, rec['op']]
 
     if not c.symbolic:
@@ -645,7 +705,7 @@ def judge_overlap(c, w, state, ops_list):
         c.note('listener saw: ' + ', '.join(f'{o}->{n}' for _, o, n in w.changes))
     if any(r['overlaps'] for r in w.recs):
         c.reach('overlapped')           # a request was made while an earlier one was still being processed
-    if any(r['run_state'] is not None and r['run_state'] != r['captured'] for r in w.recs):
+    if any(r.get('outdated') for r in w.recs):
         c.reach('captured_state_outdated_when_run')
     # (c) everything listeners saw is an edge, and the observations chain
     prev = state
@@ -674,6 +734,7 @@ def judge_overlap(c, w, state, ops_list):
                     info={'outcome': out, 'state_when_run': rec['run_state'], 'requests': ops_list})
         if out == 'accepted':
             c.reach('accepted')
+            judge_accepted_effects(c, w, rec, [i for i, ch in enumerate(w.changes) if ch[0] is task], sig)
         if out == 'refused':
             c.reach('refused')
             c.check(not mine, 'refused_no_listener_call', sig=sig, info={'changes': [m[1:] for m in mine]})
@@ -768,7 +829,8 @@ def jobs(tier):
                 continue
             if q:
                 out.append({'harness': 'step', 'fn': h_step, 'params': {'state': s, 'direction': d},
-                            'requires': ['accepted', 'refused', 'step_end']})
+                            'requires': ['accepted', 'refused', 'step_end'] +
+                                        (['accepted_reason_checked'] if 'abort' in SPEC['allowed'][s] or 'fail' in SPEC['allowed'][s] else [])})
             else:
                 for op in OPS:
                     out.append({'harness': 'step', 'fn': h_step, 'params': {'state': s, 'direction': d, 'full': True, 'ops': [op]},
@@ -790,9 +852,13 @@ def jobs(tier):
                 req = ['overlap_end']
                 if op_name(a) in SPEC['allowed'][s]:
                     req.append('overlapped')
+                req2 = list(req)
+                if op_name(a) == 'pause' and op_name(a) in SPEC['allowed'][s] and s != 'VIRGIN':
+                    # a later abort(reason=r) / fail(reason=r) waits for the lock and is performed on PAUSED
+                    req2.append('stale_accepted_reason_checked')
                 out.append({'harness': 'overlap', 'fn': h_overlap,
                             'params': {'state': s, 'direction': d, 'op_a': a, 'n': 2, 'start_time': 'set' if q else 'both'},
-                            'requires': req})
+                            'requires': req2})
                 if q and a in ('abort', 'pause') and s in ('QUEUED', 'INITIALIZING', 'DOWNLOADING', 'UPLOADING'):
                     # three overlapping requests behind a slow first one (quick tier: slow first requests only)
                     out.append({'harness': 'overlap', 'fn': h_overlap,
